@@ -2,6 +2,7 @@
 //! step of a check: it only confirms a counterexample the verifier side produced.
 use iref_core::{iri, uri};
 use std::panic;
+mod oracle;
 
 fn hex(s: &str) -> Vec<u8> {
     (0..s.len() / 2).map(|i| u8::from_str_radix(&s[2 * i..2 * i + 2], 16).unwrap()).collect()
@@ -43,6 +44,10 @@ fn main() {
     panic::set_hook(Box::new(|_| {}));
     let a: Vec<String> = std::env::args().collect();
     match a[1].as_str() {
+        // search <Cxx>: bounded refutation search (oracle.rs); prints one JSON line per discrepancy found
+        "search" => {
+            std::process::exit(oracle::print(&a[2]));
+        }
         // new <uri|iri> <Type> <hex of the UTF-8 text>
         "new" => {
             let b = hex(&a[4]);
